@@ -524,7 +524,8 @@ func runFuzz(id string, spec propSpec, tmp string) (violationLine string, info m
 	_ = os.MkdirAll(cache, 0o755)
 	// `go test -fuzz` must be run through the go tool to get coverage instrumentation
 	args := []string{"test", "-tags", "verif", "-vet=off", "-run", "^$", "-fuzz", "^" + spec.Fuzz + "$",
-		"-fuzztime", spec.FuzzTime.String(), "-test.fuzzcachedir", cache, "./props"}
+		"-fuzztime", spec.FuzzTime.String(), "./props"}
+	_ = cache
 	cmd := exec.Command("go", args...)
 	cmd.Dir = harness
 	cmd.Env = append(append([]string{}, goEnv...), "VERIF_ROOT="+root, "VERIF_KNOWN="+filepath.Join(root, "known_findings.json"),
